@@ -14,7 +14,7 @@ def strip_pc(src, dst):
             f.write(json.dumps(r, separators=(',', ':')) + '\n')
 
 
-def keep_in_ops(recs, keep):
+def keep_in_ops(recs, keep, anywhere=False):
     """step records of a client thread are kept only inside an operation (between its call and ret records) and only if
        keep(record) holds for the labelled record (fn / ctx from call-site symbolization); everything else passes"""
     inop = {}
@@ -26,7 +26,7 @@ def keep_in_ops(recs, keep):
         if r.get('fn', '') == '' and 'ln' in r and r['e'] in ('ld', 'st', 'cas', 'xchg', 'faa', 'fas', 'for', 'fence') and r['t'] != 9:
             pass
         if r['e'] in ('ld', 'st', 'cas', 'xchg', 'faa', 'fas', 'for', 'fence', 'lock', 'unlock') and r['t'] != 9:
-            if not inop.get(r['t']) or not keep(r):
+            if not (anywhere or inop.get(r['t'])) or not keep(r):
                 continue
         yield r
 
@@ -35,7 +35,7 @@ import itertools
 _SB_COUNTER = itertools.count()
 
 
-def step_bind(ctx, spec, driver, progs, consts, pb=2, max_exec=150, keep=None):
+def step_bind(ctx, spec, driver, progs, consts, pb=2, max_exec=150, keep=None, anywhere=False):
     """run the real code with step logging, validate every execution against <spec>_Step, collect the order table"""
     uid = '%s_%d' % (spec, next(_SB_COUNTER))      # several bindings of one spec may run side by side
     xs = explore(ctx, 'steps_%s' % uid, driver, progs, mode='dfs', pb=pb, max_exec=max_exec, steps=True)
@@ -46,7 +46,7 @@ def step_bind(ctx, spec, driver, progs, consts, pb=2, max_exec=150, keep=None):
         lab = os.path.join(d, 'labelled.ndjson')
         label_steps(os.path.join(BUILD, driver), xs['trace'], lab)
         with open(tr, 'w') as f:
-            for r in keep_in_ops((json.loads(l) for l in open(lab)), keep):
+            for r in keep_in_ops((json.loads(l) for l in open(lab)), keep, anywhere):
                 for k in ('fn', 'ln', 'ctx'):
                     r.pop(k, None)
                 f.write(json.dumps(r, separators=(',', ':')) + '\n')
@@ -231,6 +231,17 @@ def weak_sweep(ctx):
             run_parallel([lambda d=d, k=k, p=p: one(d, k, p) for d, k, p in weak_programs(q)], maxw=6)
         finally:
             xvlib.EXTRA_ALL[0] = ''
+    # third pass: THREE stale reads per execution, complete at preemption bound 1, for the smallest two-thread guard programs: a thread that got a
+    # pointer through a relaxed load can read every field behind it stale (stamp_it: next->prev, next->stamp, the re-validation - all three)
+    xvlib.EXTRA_ALL[0] = '--weak 3'
+    try:
+        w3 = ['stamp', 'hp3', 'ebr0'] if q else ['stamp', 'hp3', 'he3', 'ebr0', 'nebr0', 'debra0', 'qsbr', 'lfrc']
+        def one3(c):
+            x = explore(ctx, 'weak3_%s' % c, 'reclaim', ['%s;;acq0:0,rst0;acq0:0,rst0' % c], mode='dfs', pb=1, max_exec=30000 if q else 200000, max_steps=6000)
+            add_tv_stats(check_histories(ctx, x['name'], 'reclaim', 'WeakSafe', {'Kind': 'reclaim'}, x, known_preds=WEAK_KNOWN.get('reclaim', ())), [x])
+        run_parallel([lambda c=c: one3(c) for c in w3], maxw=4)
+    finally:
+        xvlib.EXTRA_ALL[0] = ''
     log('  W weak-memory executions: %d explorations validated' % (len(ctx.tv) - n0))
 
 
@@ -491,8 +502,34 @@ def run(ctx):
             jobs.append(lambda nm=nm, chg=chg: tlc_mc(ctx, 'ra_toggle_vyukovmap_' + nm, 'VyukovMap_RA', vm_ra, invariants=INV_VM, view='mcview', constraints=['MsgBound6'], workers=4,
                                                         expect='violation', tmo=1200, extra_files={'VyukovMap_RA.tla': toggle_module('VyukovMap', tabv, chg)}))
 
+    def _sec_11():
+        # ---------------- stamp_it::thread_order_queue (step binding: stamps exactly, links by control block + mark / tag).  The client ops of the
+        # reclaim driver enter and leave regions; records of thread_data / thread_block_list / the client are filtered out by call site.
+        build(['reclaim'])
+        SIQ_FN = ('thread_order_queue::push', 'thread_order_queue::remove', 'thread_order_queue::set_mark_flag', 'thread_order_queue::make_clean_marked',
+                  'thread_order_queue::mark_next', 'thread_order_queue::update_tail_stamp', 'thread_order_queue::save_next_as_last')
+        keeps = lambda r: any(f in r.get('fn', '') for f in SIQ_FN)
+        tabq, a, n = step_bind(ctx, 'StampItQueue', 'reclaim', ['stamp;;acq0:0,rst0;acq0:0,rst0', 'stamp;;acq0:0,rst0,acq0:0,rst0;acq0:0,rst0'],
+                               RM.siq_consts(MaxOps=20, MaxOps0=20, Exits=True), pb=2, max_exec=120 if q else 1500, keep=keeps, anywhere=True)
+        bind['StampItQueue'] = (a, n); tabs_all['StampItQueue'] = tabq
+        ctx.binding.append({'spec': 'StampItQueue', 'orders_extracted': {k: sorted(v) for k, v in tabq.items() if v}})
+        XQ = 'MsgBound8 == MsgBound(8)\n'
+        modq, _ = ord_module('StampItQueue', tabq, XQ)
+        sq_ra = RM.siq_consts(Weak=True, Ord='<-OrdX')
+        # memory-model independent part: the tail stamp never overtakes a thread inside its region, no null pointer is followed.  (The code's
+        # assertions on stamp flags in update_tail_stamp CAN fail under the C++ model - a stale tail->next next to a fresh NotInList stamp - with
+        # no consequence for TailSafe; they are checked in the SC runs only.)
+        INV_SQ = ['TailSafe', 'NoNullDeref']
+        jobs.append(lambda: tlc_mc(ctx, 'ra_stampitqueue', 'StampItQueue_RA', sq_ra, invariants=INV_SQ, view='mcview', constraints=['MsgBound8'], workers=6, tmo=1500,
+                                   extra_files={'StampItQueue_RA.tla': modq}))
+        jobs.append(lambda: tlc_mc(ctx, 'ra_toggle_stampitqueue_own_next_rlx', 'StampItQueue_RA', sq_ra, invariants=INV_SQ, view='mcview', constraints=['MsgBound8'], workers=4,
+                                   expect='violation', tmo=1500,
+                                   extra_files={'StampItQueue_RA.tla': toggle_module('StampItQueue', tabq, {'r_ldnext': 'rlx', 'r_marknext': 'rlx', 'r_marknextf': 'rlx', 'f_ldnextb': 'rlx'}, XQ)}))
+        jobs.append(lambda: tlc_mc(ctx, 'ra_toggle_stampitqueue_prev_prev_rlx', 'StampItQueue_RA', sq_ra, invariants=['Asserts'], view='mcview', constraints=['MsgBound8'], workers=4,
+                                   expect='violation', tmo=1500, extra_files={'StampItQueue_RA.tla': toggle_module('StampItQueue', tabq, {'f_ldpp': 'rlx'}, XQ)}))
+
     # the sections (binding + order extraction of one spec each) are independent: they run side by side, then all model runs
-    run_parallel([_sec_0, _sec_1, _sec_2, _sec_3, _sec_4, _sec_5, _sec_6, _sec_7, _sec_8, _sec_9, _sec_10], maxw=6)
+    run_parallel([_sec_0, _sec_1, _sec_2, _sec_3, _sec_4, _sec_5, _sec_6, _sec_7, _sec_8, _sec_9, _sec_10, _sec_11], maxw=6)
     tab = tabs_all['ChaseLev']
     run_parallel(jobs, maxw=4)
     race_sweep(ctx)
